@@ -61,22 +61,25 @@ Section PopEquiv.
   Lemma de_mask_eq (mx : bool) : forall ts ps : list Z,
     (if mx then map2 (fun x y => Z.leb y x) ts ps else map2 (fun x y => Z.leb x y) ts ps) = de_mask mx ts ps.
   Proof. destruct mx; induction ts as [|t ts IH]; intros [|p ps]; cbn; try reflexivity; now rewrite IH. Qed.
-  Theorem DE_mask_eq mx (trial parents : pop) : gen_DE_mask mx trial parents = de_mask mx (pf trial) (pf parents).
-  Proof. apply de_mask_eq. Qed.
-  Theorem SHADE_mask_eq mx (trial parents : pop) : gen_SHADE_mask mx trial parents = de_mask mx (pf trial) (pf parents).
-  Proof. apply de_mask_eq. Qed.
-  Theorem DE_result_fits mx (trial parents : pop) :
-    pf (gen_DE_result trial parents (gen_DE_mask mx trial parents)) = de_select mx (pf trial) (pf parents).
-  Proof. unfold gen_DE_result, gen_merge, gen_getitem_mask, de_select. cbn [pf]. now rewrite DE_mask_eq. Qed.
-  Theorem SHADE_result_fits mx (trial parents : pop) :
-    pf (gen_SHADE_result trial parents (gen_SHADE_mask mx trial parents)) = de_select mx (pf trial) (pf parents).
-  Proof. unfold gen_SHADE_result, gen_merge, gen_getitem_mask, de_select. cbn [pf]. now rewrite SHADE_mask_eq. Qed.
-  Theorem DE_result_rows (trial parents : pop) m : aligned trial ->
-    rows_of (gen_DE_result trial parents m) = pick m (rows_of trial) ++ pick (map negb m) (rows_of parents).
+  Theorem DE_result_fits mx (trial parents : pop) : pf (gen_DE_result mx trial parents) = de_select mx (pf trial) (pf parents).
+  Proof. unfold gen_DE_result, gen_merge, gen_getitem_mask, de_select. cbn [pf]. now rewrite de_mask_eq. Qed.
+  Theorem SHADE_result_fits mx (trial parents : pop) : pf (gen_SHADE_result mx trial parents) = de_select mx (pf trial) (pf parents).
+  Proof. unfold gen_SHADE_result, gen_merge, gen_getitem_mask, de_select. cbn [pf]. now rewrite de_mask_eq. Qed.
+  Lemma pick_aligned (m : list bool) : forall (gs : list G) (fs : list Z), length gs = length fs -> length (pick m gs) = length (pick m fs).
+  Proof. induction m as [|b m IH]; intros [|g gs] [|f fs] L; cbn in *; try reflexivity; try discriminate. injection L as L. destruct b; cbn; [f_equal|]; now apply IH. Qed.
+  Theorem DE_result_rows mx (trial parents : pop) : aligned trial ->
+    rows_of (gen_DE_result mx trial parents) =
+    pick (de_mask mx (pf trial) (pf parents)) (rows_of trial) ++ pick (map negb (de_mask mx (pf trial) (pf parents))) (rows_of parents).
   Proof.
-    intros A. unfold gen_DE_result. rewrite merge_rows, !getitem_mask_rows; [reflexivity|].
-    unfold aligned, gen_getitem_mask. cbn [pg pf]. unfold aligned in A. revert A. generalize (pg trial) (pf trial).
-    induction m as [|b m IH]; intros [|g gs] [|f fs] L; cbn in *; try reflexivity; try discriminate. injection L as L. destruct b; cbn; [f_equal|]; now apply IH.
+    intros A. unfold gen_DE_result. rewrite de_mask_eq. rewrite merge_rows, !getitem_mask_rows; [reflexivity|].
+    unfold aligned, gen_getitem_mask. cbn [pg pf]. now apply pick_aligned.
+  Qed.
+  Theorem SHADE_result_rows mx (trial parents : pop) : aligned trial ->
+    rows_of (gen_SHADE_result mx trial parents) =
+    pick (de_mask mx (pf trial) (pf parents)) (rows_of trial) ++ pick (map negb (de_mask mx (pf trial) (pf parents))) (rows_of parents).
+  Proof.
+    intros A. unfold gen_SHADE_result. rewrite de_mask_eq. rewrite merge_rows, !getitem_mask_rows; [reflexivity|].
+    unfold aligned, gen_getitem_mask. cbn [pg pf]. now apply pick_aligned.
   Qed.
 
   (* the four DE operators: a trial row keeps its parent's fitness exactly when its genome is IDENTICAL, NaN (None) otherwise *)
